@@ -27,6 +27,10 @@ var _ func([]string) frt.Tuple2[int, string] = i_len_head[string]
 var _ func([]int) []int = i_map_inc
 var _ func(int, string, bool) frt.Tuple3[bool, int, string] = i_three[int, string, bool]
 var _ func(func() int) int = i_unit_fn[int]
+var _ func(int) frt.Tuple2[GBox[int], GBox[int]] = i_dup[int]
+var _ func() frt.Tuple2[GBox[int], GBox[int]] = i_dup_int
+var _ func() frt.Tuple2[GBox[string], GBox[string]] = i_dup_str
+var _ func(GRes[int], GRes[int]) frt.Tuple2[GRes[int], GRes[int]] = i_twice_union
 var _ func(int, int, int, int) int = i_chain
 var _ func(int, string, string) frt.Tuple3[int, bool, int] = i_chain2
 
